@@ -87,6 +87,11 @@ func piecesGen(args []string) {
 			if r.Intn(5) == 0 {
 				pieces = append(pieces, failingPiece(r))
 			}
+			if r.Intn(8) == 0 {
+				// an input that is stopped through its context: it prints a mark and then loops until the deadline
+				mark := 700 + r.Intn(90)
+				pieces = append(pieces, N{"kind": "interrupted", "mark": mark, "src": fmt.Sprintf("//@deadline\nprint(%d)\nfor {\n}", mark)})
+			}
 			pieces = append(pieces, N{"kind": "code", "ast": sts, "hoist": hoistNames(sts), "declares": len(declaredNames(sts)) > 0,
 				"src": ast.Render(sts)})
 			known = append(known, declaredNames(sts)...)
